@@ -651,7 +651,7 @@ def h_remove_subtree(I, fi, get_parent_fi):
         P.check("remove.clone-forgotten-consistently", ok, "for every clone s of the subtree exactly _data[s], _node_indices[s] and _node_indices_rev[index of s] are deleted (the two maps stay mutually inverse)", kind="post")
     sri = alg.raw_app("idx_of", sr, sort="Int")
     rem = [e for e in log if e[0] == "remove-nodes"]
-    okr = len(rem) == 1 and rem[0][1] is t.fields["_graph"] and isinstance(rem[0][2], SymSeq) and rem[0][2].key.startswith("descendants(%s)" % sri.key()) \
+    okr = len(rem) == 1 and rem[0][1] is t.fields["_graph"] and isinstance(rem[0][2], SymSeq) and rem[0][2].key.replace("sorted(", "").startswith("descendants(%s)" % sri.key()) \
         and len(rem[0][2].tail) == 1 and (I.to_num(rem[0][2].tail[0]) - sri).is_zero()
     P.check("remove.graph-nodes", okr, "the graph loses exactly the subtree root and its descendants", kind="post")
     par_idx = alg.raw_app("parent", sri, sort="Int")
@@ -1335,6 +1335,9 @@ def h_get_subtree(I, fi, add_idx_fi):
             if not (isinstance(op, ast.Add) and swapped and isinstance(other, list)):
                 raise Unsupported("operation on the list of descendants")
             return DescList(self.g, self.idx, list(other) + self.head)
+
+        def as_sorted(self, I_, key=None, reverse=False):
+            return self  # the same indices in another order (the subgraph is induced on a set of nodes)
 
     class Rx(Model):
         def m_descendants(self, I_, g, idx):
